@@ -10,6 +10,7 @@ package pubsub
 
 import (
 	"context"
+	"sync/atomic"
 	"encoding/binary"
 	"fmt"
 	"sort"
@@ -30,6 +31,7 @@ func genC20(seed uint64, tier string) *Plan {
 	r := newPrng(seed, "c20")
 	if r.chance(0.5) {
 		p := &Plan{World: "val", Knobs: map[string]float64{}}
+		p.Knobs["store_err"] = []float64{0, 0, 0, 0.1, 0.3}[r.intn(5)]
 		na := r.rng(1, 3)
 		p.Knobs["nauthors"] = float64(na)
 		n := r.rng(3, 16)
@@ -59,6 +61,13 @@ func genC20(seed uint64, tier string) *Plan {
 	p.Knobs["seqno_inline"] = float64(r.intn(2))
 	p.Knobs["seen_ttl_ms"] = float64([]int{2000, 2000, 120000}[r.intn(3)])
 	p.Knobs["c20_park"] = []float64{0, 0.5, 1}[r.intn(3)]
+	p.Knobs["store_err"] = []float64{0, 0, 0, 0.1, 0.3}[r.intn(5)]
+	if r.chance(0.5) {
+		// an accepting topic validator next to the sequence-number validator (inline or asynchronous)
+		p.Knobs["topic_val"] = 1
+		p.Knobs["v3_inline"] = float64(r.intn(2))
+		p.Knobs["p_park"] = []float64{0, 0, 0.4}[r.intn(3)]
+	}
 	genDegrees(r, p, 4)
 	add := func(op string, a ...int64) { p.Items = append(p.Items, Item{Op: op, A: a}) }
 	add("node-sub", 0)
@@ -92,6 +101,13 @@ func genC20(seed uint64, tier string) *Plan {
 			add("resend", i, int64(r.intn(6)))
 		case x < 85:
 			add("release", int64(r.intn(6)))
+		case x < 88:
+			add("node-pub", 0, int64(r.rng(8, 40)))
+		case x < 90:
+			// the node's clock stepped back (the publication counter starts from the wall clock):
+			// its next sequence numbers are not above what the store holds for it
+			add("clock-back", int64(r.rng(0, 3)))
+			add("node-pub", 0, int64(r.rng(8, 40)))
 		case x < 92:
 			add("adv", int64(r.rng(1, 400)))
 		case x < 97:
@@ -108,6 +124,43 @@ type seqStore struct {
 	m   map[peer.ID][]byte
 	log []seqPut
 	s   *sim
+	// fault injection: each Get / Put fails with this probability (decided by the call's ordinal)
+	pErr    float64
+	ncalls  int
+	failed  map[string]int // "author|value" -> number of failed Puts
+	getErrs int
+	nfail   map[string]int
+	errTask map[any]bool // validations (context value c20TaskKey) that met a store error
+}
+
+var errSimStore = fmt.Errorf("sim: metadata store unavailable")
+
+func (st *seqStore) fail(kind string) bool {
+	st.ncalls++
+	if st.pErr <= 0 {
+		return false
+	}
+	if st.s.hf(fmt.Sprintf("storeerr|%s|%d", kind, st.ncalls)) < st.pErr {
+		st.nfail[kind]++
+		return true
+	}
+	return false
+}
+
+// report copies the fault counters into the run's statistics (root only).
+func (st *seqStore) report() {
+	st.mu.Lock()
+	defer st.mu.Unlock()
+	for k, v := range st.nfail {
+		st.s.faults["store_"+k+"_error"] += v
+	}
+	st.nfail = map[string]int{}
+}
+
+type c20TaskKey struct{}
+
+func newSeqStore(s *sim) *seqStore {
+	return &seqStore{m: map[peer.ID][]byte{}, s: s, pErr: s.plan.k("store_err", 0), nfail: map[string]int{}, failed: map[string]int{}, errTask: map[any]bool{}}
 }
 type seqPut struct {
 	author peer.ID
@@ -119,16 +172,26 @@ type seqPut struct {
 func (st *seqStore) Get(ctx context.Context, p peer.ID) ([]byte, error) {
 	st.mu.Lock()
 	defer st.mu.Unlock()
+	if st.fail("get") {
+		st.getErrs++
+		st.errTask[ctx.Value(c20TaskKey{})] = true
+		return nil, errSimStore
+	}
 	return st.m[p], nil
 }
 func (st *seqStore) Put(ctx context.Context, p peer.ID, v []byte) error {
 	st.mu.Lock()
 	defer st.mu.Unlock()
-	st.m[p] = v
 	var x uint64
 	if len(v) == 8 {
 		x = binary.BigEndian.Uint64(v)
 	}
+	if st.fail("put") {
+		st.failed[fmt.Sprintf("%s|%d", p, x)]++
+		st.errTask[ctx.Value(c20TaskKey{})] = true
+		return errSimStore
+	}
+	st.m[p] = v
 	st.log = append(st.log, seqPut{p, x, st.s.now(), len(st.log)})
 	return nil
 }
@@ -147,7 +210,7 @@ func (st *seqStore) checkLog(s *sim) {
 
 func runC20Val(s *sim) {
 	p := s.plan
-	st := &seqStore{m: map[peer.ID][]byte{}, s: s}
+	st := newSeqStore(s)
 	val := NewBasicSeqnoValidator(st, discardLogger)
 	kr := newPrng(p.Seed, "authors")
 	var authors []peer.ID
@@ -180,7 +243,7 @@ func runC20Val(s *sim) {
 	_ = current
 	verifYieldFn = func(point int) {}
 	run := func(t *task) {
-		ctx := context.WithValue(context.Background(), gctx{}, t)
+		ctx := context.WithValue(context.Background(), c20TaskKey{}, any(t))
 		sq := make([]byte, 8)
 		binary.BigEndian.PutUint64(sq, t.seq)
 		msg := &Message{Message: &pb.Message{From: []byte(t.author), Seqno: sq}}
@@ -302,6 +365,13 @@ func runC20Val(s *sim) {
 			continue
 		}
 		just := t.seq == 0
+		st.mu.Lock()
+		if st.errTask[any(t)] {
+			// the store failed during this validation: it may only be ignored, never accepted
+			just = true
+			s.probe("ignore_after_store_error")
+		}
+		st.mu.Unlock()
 		for _, pp := range st.log[:t.putsAt] {
 			if pp.author == t.author && pp.val >= t.seq {
 				just = true
@@ -311,6 +381,8 @@ func runC20Val(s *sim) {
 			s.violate("C20", "spurious-ignore", "C20/spurious-ignore", "validation of seq %d (author %s) was ignored although no value >= %d had been committed", t.seq, shortPeer(t.author), t.seq)
 		}
 	}
+	st.report()
+	st.report()
 	s.nontrivial = len(tasks) >= 2
 	s.class = fmt.Sprintf("val/%x", shortHash([]byte(c02ClassStr(p))))
 	s.sample = map[string]any{"tasks": len(tasks), "puts": len(st.log), "steps_with_two_parked": parked2}
@@ -319,7 +391,7 @@ func runC20Val(s *sim) {
 func runC20Node(s *sim) {
 	w := newNodeWorld(s)
 	p := w.plan
-	st := &seqStore{m: map[peer.ID][]byte{}, s: s}
+	st := newSeqStore(s)
 	opt := func() Option {
 		return WithDefaultValidator(NewBasicSeqnoValidator(st, discardLogger), WithValidatorInline(p.kb("seqno_inline")))
 	}
@@ -359,6 +431,21 @@ func runC20Node(s *sim) {
 		info[midOf(m)] = sentRec{au.id, uint64(it.a(2))}
 		fp.send(rpcPub(m))
 	}
+	w.extraOps["clock-back"] = func(it Item) {
+		st.mu.Lock()
+		b := st.m[w.n.h.id]
+		st.mu.Unlock()
+		if len(b) != 8 {
+			return
+		}
+		n := binary.BigEndian.Uint64(b)
+		back := uint64(it.a(0)) + 1
+		if n <= back {
+			return
+		}
+		s.probe("clock_stepped_back")
+		atomic.StoreUint64(&w.n.ps.counter, n-back)
+	}
 	w.extraOps["restart"] = func(it Item) {
 		// crash + restart: a fresh instance with the same identity; only the metadata store survives
 		s.probe("restart_with_persisted_store")
@@ -373,21 +460,32 @@ func runC20Node(s *sim) {
 		}
 		s.settle()
 		st.checkLog(s)
-		// deliveries per author strictly increasing in delivery order (all subscriptions of all instances)
+		// Every delivered message was accepted by the validator (its number was committed, and commits
+		// are strictly increasing: checkLog) and no number of an author is delivered twice. Delivery
+		// ORDER is not compared: validators that run after the sequence-number validator, and the
+		// hand-off from validation workers to the event loop, may legitimately reorder two accepted
+		// messages.
+		committedD := map[string]bool{}
+		for _, pp := range st.log {
+			committedD[fmt.Sprintf("%s|%d", pp.author, pp.val)] = true
+		}
 		for _, n := range s.nodes {
 			for _, ss := range n.subs {
-				last := map[peer.ID]uint64{}
-				have := map[peer.ID]bool{}
+				have := map[string]bool{}
 				for _, m := range ss.messages() {
 					a := peer.ID(m.GetFrom())
 					var x uint64
 					if len(m.GetSeqno()) == 8 {
 						x = binary.BigEndian.Uint64(m.GetSeqno())
 					}
-					if have[a] && x <= last[a] {
-						s.violate("C20", "replay", "C20/node/replay-delivered", "subscription %d received seq %d of author %s after seq %d", ss.id, x, shortPeer(a), last[a])
+					k := fmt.Sprintf("%s|%d", a, x)
+					if have[k] {
+						s.violate("C20", "replay", "C20/node/replay-delivered", "subscription %d received sequence number %d of author %s twice", ss.id, x, shortPeer(a))
 					}
-					last[a], have[a] = x, true
+					if !committedD[k] {
+						s.violate("C20", "replay", "C20/node/unaccepted-delivered", "subscription %d received seq %d of author %s which the validator never accepted (never committed to the store)", ss.id, x, shortPeer(a))
+					}
+					have[k] = true
 					s.probe("delivery_checked")
 				}
 			}
@@ -401,10 +499,11 @@ func runC20Node(s *sim) {
 		for _, fp := range w.allFakes() {
 			for _, o := range fp.recv {
 				for _, m := range o.rpc.GetPublish() {
-					r, ok := info[midOf(m)]
-					if !ok {
+					if len(m.GetSeqno()) != 8 {
 						continue
 					}
+					r := sentRec{peer.ID(m.GetFrom()), binary.BigEndian.Uint64(m.GetSeqno())}
+					s.probe("wire_copy_checked")
 					if !committed[fmt.Sprintf("%s|%d", r.author, r.seq)] {
 						s.violate("C20", "forward", "C20/node/ignored-forwarded", "message seq %d of author %s was forwarded to %s although the validator never accepted it", r.seq, shortPeer(r.author), fp.name)
 					}
@@ -420,6 +519,7 @@ func runC20Node(s *sim) {
 			}
 		}
 		w.n.mu.Unlock()
+		st.report()
 		s.nontrivial = len(info) > 0
 		s.class = fmt.Sprintf("node/%s/%x", w.n.router, shortHash([]byte(c13ClassStrAll(w))))
 	})
